@@ -494,9 +494,18 @@ func c17Grammar(c *sim.Case) {
 		d = doc{"listen_address": "127.0.0.1", "listen_port": 10003, "log_level": "info"}
 		var chains []any
 		for i, n := 0, 1+sim.Pick(c, "nchains", 2); i < n; i++ {
-			fs := []any{doc{"oidc": genOIDCDoc(c, 0)}}
-			if sim.Bool(c, "withmock") {
-				fs = append(fs, doc{"mock": doc{"allow": true}})
+			// filter layouts: one OIDC filter alone or beside mocks, and layouts with a second OIDC filter (adjacent or not)
+			layout := []string{"o", "om", "mo", "oo", "omo", "momo", "ommo", "mom"}[sim.Weighted(c, "layout", 6, 4, 3, 1, 2, 1, 1, 1)]
+			var fs []any
+			for _, k := range layout {
+				if k == 'o' {
+					fs = append(fs, doc{"oidc": genOIDCDoc(c, 0)})
+				} else {
+					fs = append(fs, doc{"mock": doc{"allow": true}})
+				}
+			}
+			if strings.Count(layout, "o") > 1 {
+				c.Class("layout:several-oidc-filters-in-a-chain")
 			}
 			chains = append(chains, doc{"name": fmt.Sprintf("chain-%d", i), "filters": fs})
 		}
@@ -507,6 +516,11 @@ func c17Grammar(c *sim.Case) {
 		def, ov := genOverridePair(c)
 		d = doc{"listen_address": "127.0.0.1", "listen_port": 10003, "log_level": "info", "default_oidc_config": def}
 		chains := []any{doc{"name": "a", "filters": []any{doc{"oidc_override": ov}}}}
+		if sim.Weighted(c, "second-override-in-chain", 5, 1) == 1 {
+			_, ovx := genOverridePair(c)
+			chains = []any{doc{"name": "a", "filters": []any{doc{"oidc_override": ov}, doc{"mock": doc{"allow": true}}, doc{"oidc_override": ovx}}}}
+			c.Class("layout:several-oidc-filters-in-a-chain")
+		}
 		if sim.Bool(c, "second-override") {
 			_, ov2 := genOverridePair(c)
 			chains = append(chains, doc{"name": "b", "match": doc{"header": "x-tenant", "equality": "b"}, "filters": []any{doc{"oidc_override": ov2}}})
